@@ -238,7 +238,22 @@ def run(project: Project, rep, tier: str):
     check_guards(project, rep)
     check_stale(project, rep)
     check_dispatch(project, rep)
-    for rn, n in (("PI-PIXEL", 6), ("PI-AXIS", 6), ("PI-UNITS", 3), ("PI-FAST", 1), ("PI-REG", 6)):
+    # the weight of a point must not depend on whether the diagram is written with ints or floats: no floating-point
+    # store into an array that inherits the caller's dtype (rules/dtype_rule.py) in the image modules
+    from . import dtype_rule
+    fns = [fi_ for q_, fi_ in sorted(project.functions.items())
+           if fi_.module.name in ("persim.images", WMOD, KMOD) and isinstance(fi_.node, ast.FunctionDef)]
+    hits = 0
+    for fi_ in fns:
+        for h in dtype_rule.analyse(project, fi_):
+            hits += 1
+            rep.refuted("PI-DTYPE", fi_, h["node"],
+                        h["why"] + ": for an integer-typed diagram the weights / pixel masses are truncated, so the pixel is no "
+                                   "longer weight x kernel mass", construct=f"{fi_.qualname}: {ast.unparse(h['node'])[:100]}")
+    if not hits:
+        rep.discharged("PI-DTYPE", None, None, f"{len(fns)} functions of the image modules: no floating-point store into an "
+                                               f"array whose dtype is inherited from the caller's data")
+    for rn, n in (("PI-PIXEL", 6), ("PI-AXIS", 6), ("PI-UNITS", 3), ("PI-FAST", 1), ("PI-REG", 6), ("PI-DTYPE", 1)):
         rep.floor(rn, n)
     for t in ("numpy.meshgrid", "numpy.reshape", "numpy.ndarray.flatten", "scipy.special.erfc", "numpy.zeros"):
         rep.trust(t)
